@@ -921,8 +921,8 @@ def plan_C15(ctx):
         "flags is executed on the real functions: demanded answers (decl), drift, and on the REAL results: entry points agree incl. the URIs "
         "handed back, symmetry, flag monotonicity.")
     # (slices drift_dups / drift_badlist are outside the property's domain -- duplicate names, ill-formed lists -- and not run)
-    slices = ["refl", "recase", "usercase", "presence", "flags64v"] + ([] if ctx.quick else
-             ["permute", "probe_emptyval", "allpairs_core", "allpairs_lists", "flags64", "probe_extra", "probe_hdrextra", "probe_hvalcase"])
+    slices = ["refl", "recase", "usercase", "presence", "flags64v", "probe_emptyval", "probe_extra"] + ([] if ctx.quick else
+             ["permute", "allpairs_core", "allpairs_lists", "flags64", "probe_hdrextra", "probe_hvalcase"])
     for sl in slices:
         ctx.tlc("MC_URICmp", "MC_URICmp_%s.cfg" % sl, workers=8, min_records=1000, timeout=3000)
     ctx.nontrivial = ctx.records
